@@ -13,6 +13,7 @@ class Problem:
         self.Q, self.c, self.w, self.A, self.d = Q, c, w, A, d
         self.Clb, self.Cub, self.Dlb, self.Dub = Clb, Cub, Dlb, Dub
         self.l1, self.split, self.hess = list(l1), split, hess
+        self.prov = 0        # bits 1..7: optional combined members the problem supplies itself (drv_solve VProblemProv); work buffers poisoned
 
     # ---- independent evaluation (user functions only)
     def f(self, x):
@@ -74,12 +75,12 @@ class Problem:
         t += [vec_in(self.c), vec_in(self.w)]
         t.append(" ".join(hexf(v) for r in self.A for v in r))
         t += [vec_in(self.d), vec_in(self.Clb), vec_in(self.Cub), vec_in(self.Dlb), vec_in(self.Dub), vec_in(self.l1)]
-        t.append("%d %d" % (self.split, 1 if self.hess else 0))
+        t.append("%d %d" % (self.split, (1 if self.hess else 0) | (self.prov & 0xfe)))
         return "\n".join(t)
 
     def describe(self):
         return {"n": self.n, "m": self.m, "Q": self.Q, "c": self.c, "w": self.w, "A": self.A, "d": self.d,
-                "C": [self.Clb, self.Cub], "D": [self.Dlb, self.Dub], "l1": self.l1}
+                "C": [self.Clb, self.Cub], "D": [self.Dlb, self.Dub], "l1": self.l1, "supplied_optional_members_mask": self.prov}
 
 
 def gen_bounds(rng, k, lo=-3.0, hi=3.0, p_free=0.35, p_one=0.3, p_eq=0.08):
@@ -132,8 +133,17 @@ class Request:
                  rec_limit=100000):
         self.__dict__.update(locals())
         del self.__dict__["self"]
+        self.prov = getattr(prob, "prov", 0)       # snapshot: generators reuse one Problem object for several requests
 
     def to_input(self):
+        keep = getattr(self.prob, "prov", 0)
+        self.prob.prov = self.prov
+        try:
+            return self._to_input()
+        finally:
+            self.prob.prov = keep
+
+    def _to_input(self):
         t = ["run", self.prob.to_input(), vec_in(self.x0), vec_in(self.y0), vec_in(self.S0),
              "%s %s %s" % (self.solver, self.direction, self.mode),
              "%d %s" % (len(self.params), " ".join(self.params)),
@@ -147,7 +157,7 @@ class Request:
         return {"solver": self.solver, "dir": self.direction, "mode": self.mode, "params": list(self.params),
                 "always_overwrite": self.always, "tolerance": self.tol, "max_time_ns": self.max_time_ns,
                 "stop_at_eval": self.stop_at_eval, "stop_at_cb": self.stop_at_cb, "nan_from_eval": self.nan_from_eval, "stop_at_dircall": self.stop_at_dircall,
-                "script": list(self.script), "x0": self.x0, "y0": self.y0, "Sigma": self.S0, "problem": self.prob.describe()}
+                "script": list(self.script), "x0": self.x0, "y0": self.y0, "Sigma": self.S0, "problem": dict(self.prob.describe(), supplied_optional_members_mask=self.prov)}
 
     def param(self, key, default=None):
         out = default
